@@ -273,13 +273,19 @@ def extract_constants():
     arrays = {}
     for m in re.finditer(r"pub\s+const\s+(\w+)\s*:\s*\[u8;\s*\d+\]\s*=\s*\[([^\]]*)\]\s*;", s):
         arrays[m.group(1)] = [int(x.strip(), 0) for x in m.group(2).split(",") if x.strip()]
-    m = need(re.search(r"const\s+HASH_CHAIN_COUNTS\s*:\s*\[usize;\s*(\d+)\]\s*=\s*\[([^\]]*)\]\s*;", s), "HASH_CHAIN_COUNTS")
-    chain_counts = [int(x.strip()) for x in m.group(2).split(",") if x.strip()]
-    body = block_after(s, r"pub\s+const\s+fn\s+get_num_winternitz_chains\s*\(", "get_num_winternitz_chains")
-    wi = [(int(l), int(re.match(r"(\d+)", r).group(1))) for c, l, r in arms(block_after(body, r"let\s+w_i\s*=\s*match\s+winternitz_parameter\s*\{", "w_i match")) if l != "_"]
-    oi = [(int(l), int(re.match(r"(\d+)", r).group(1))) for c, l, r in arms(block_after(body, r"let\s+o_i\s*=\s*match\s+output_size\s*\{", "o_i match")) if l != "_"]
-    idx = need(re.search(r"HASH_CHAIN_COUNTS\[\s*w_i\s*\*\s*(\d+)\s*\+\s*o_i\s*\]", body), "HASH_CHAIN_COUNTS index expression")
-    stride = int(idx.group(1))
+    # the chain-count table in its source shape (optional: the authoritative values come from the compiled library, see
+    # runtime_tables(); when the source still has this shape the two are cross-checked)
+    chain_counts = wi = oi = stride = None
+    try:
+        m = need(re.search(r"const\s+HASH_CHAIN_COUNTS\s*:\s*\[usize;\s*(\d+)\]\s*=\s*\[([^\]]*)\]\s*;", s), "HASH_CHAIN_COUNTS")
+        chain_counts = [int(x.strip()) for x in m.group(2).split(",") if x.strip()]
+        body = block_after(s, r"pub\s+const\s+fn\s+get_num_winternitz_chains\s*\(", "get_num_winternitz_chains")
+        wi = [(int(l), int(re.match(r"(\d+)", r).group(1))) for c, l, r in arms(block_after(body, r"let\s+w_i\s*=\s*match\s+winternitz_parameter\s*\{", "w_i match")) if l != "_"]
+        oi = [(int(l), int(re.match(r"(\d+)", r).group(1))) for c, l, r in arms(block_after(body, r"let\s+o_i\s*=\s*match\s+output_size\s*\{", "o_i match")) if l != "_"]
+        idx = need(re.search(r"HASH_CHAIN_COUNTS\[\s*w_i\s*\*\s*(\d+)\s*\+\s*o_i\s*\]", body), "HASH_CHAIN_COUNTS index expression")
+        stride = int(idx.group(1))
+    except (TieBroken, Exception):
+        chain_counts = wi = oi = stride = None
     # const fns translated expression by expression
     fns = {}
     for name in ["prng_len", "lmots_signature_length", "lms_public_key_length", "lms_signature_length",
@@ -294,9 +300,7 @@ def extract_constants():
     fns["iter_len"] = ([p.split(":")[0].strip() for p in m.group(1).split(",") if p.strip()], " ".join(m.group(2).split()))
     # the reversed per-level loop of get_hss_signature_length is translated structurally in the model;
     # here we only check its shape has not changed
-    g = block_after(s, r"pub\s+const\s+fn\s+get_hss_signature_length\s*\(", "get_hss_signature_length")
-    gshape = " ".join(g.split())
-    return dict(order=order, arrays=arrays, chain_counts=chain_counts, wi=wi, oi=oi, stride=stride, fns=fns, hss_sig_len_src=gshape)
+    return dict(order=order, arrays=arrays, chain_counts=chain_counts, wi=wi, oi=oi, stride=stride, fns=fns)
 
 
 def extract_aux_consts():
@@ -306,9 +310,19 @@ def extract_aux_consts():
         out[m.group(1)] = m.group(3).strip()
     for k in ["AUX_DATA_MARKER", "NO_AUX_DATA", "AUX_DATA_HASHES", "IPAD", "OPAD"]:
         need(k in out, "aux.rs constant " + k)
-    fin = block_after(s, r"pub\s+fn\s+hss_finalize_aux_data", "hss_finalize_aux_data")
-    m = need(re.search(r"for\s+i\s+in\s+0\s*(\.\.=?)\s*MAX_TREE_HEIGHT", fin), "finalize loop over levels")
-    out["FINALIZE_INCLUSIVE"] = "1" if m.group(1) == "..=" else "0"
+    # which levels hss_finalize_aux_data feeds into the MAC: read off the loop when it still has the index-loop shape; a
+    # differently shaped (e.g. iterator) loop is assumed to cover all levels - the MAC bytes are compared with the library
+    # on every run of C10, so a wrong assumption shows there
+    out["FINALIZE_INCLUSIVE"] = "1"
+    out["FINALIZE_SHAPE_KNOWN"] = False
+    try:
+        fin = block_after(s, r"pub\s+fn\s+hss_finalize_aux_data", "hss_finalize_aux_data")
+        m = re.search(r"for\s+\w+\s+in\s+0\s*(\.\.=?)\s*MAX_TREE_HEIGHT", fin)
+        if m:
+            out["FINALIZE_INCLUSIVE"] = "1" if m.group(1) == "..=" else "0"
+            out["FINALIZE_SHAPE_KNOWN"] = True
+    except TieBroken:
+        pass
     return out
 
 
@@ -319,16 +333,95 @@ def extract_privkey_consts():
 
 
 def extract_build():
-    s = strip_comments(read("build.rs"))
-    lv = need(re.search(r"max_allowed_hss_levels\s*\.map_or\(Ok\((\d+)\)", s), "build.rs default level count")
-    lim = need(re.search(r"if\s+max_allowed_hss_levels\s*>\s*(\d+)", s), "build.rs level limit")
-    th = need(re.search(r'tree_heights\s*\.unwrap_or\("([^"]*)"\)', s), "build.rs default tree heights")
-    wp = need(re.search(r'winternitz_parameters\s*\.unwrap_or\("([^"]*)"\)', s), "build.rs default winternitz parameters")
-    need(re.search(r"tree_heights\.iter\(\)\.max\(\)", s), "MAX_TREE_HEIGHT = max of tree heights")
-    need(re.search(r"winternitz_parameters\.iter\(\)\.min\(\)", s), "MIN_WINTERNITZ_PARAMETER = min of parameters")
-    return dict(levels=int(lv.group(1)), limit=int(lim.group(1)),
-                heights=[int(x) for x in th.group(1).split(", ")],
-                winternitz=[int(x) for x in wp.group(1).split(", ")])
+    """build.rs defaults in their source shape - optional (None when build.rs was reshaped): the defaults are then read from
+    the constants of the default build of the compiled library (runtime_tables)"""
+    try:
+        s = strip_comments(read("build.rs"))
+        lv = need(re.search(r"max_allowed_hss_levels\s*\.map_or\(Ok\((\d+)\)", s), "build.rs default level count")
+        lim = need(re.search(r"if\s+max_allowed_hss_levels\s*>\s*(\d+)", s), "build.rs level limit")
+        th = need(re.search(r'tree_heights\s*\.unwrap_or\("([^"]*)"\)', s), "build.rs default tree heights")
+        wp = need(re.search(r'winternitz_parameters\s*\.unwrap_or\("([^"]*)"\)', s), "build.rs default winternitz parameters")
+        return dict(levels=int(lv.group(1)), limit=int(lim.group(1)),
+                    heights=[int(x) for x in th.group(1).split(", ")],
+                    winternitz=[int(x) for x in wp.group(1).split(", ")])
+    except (TieBroken, Exception):
+        return None
+
+
+def runtime_tables():
+    """The authoritative parameter tables and build defaults: read from the *compiled* library (hooks on, default build)
+    through the harness, so that a reshaping of the source that keeps the values does not break the tie."""
+    sys.path.insert(0, os.path.dirname(os.path.abspath(__file__)))
+    import hbs
+    ok, path = hbs.build_harness()
+    if not ok:
+        raise TieBroken("the library does not build with hooks enabled: " + path[-1500:])
+    hz = hbs.harness(path, threads=2)
+    try:
+        fam = {}
+        for H in hbs.HASHES:
+            ans = hz.batch(["rows H=%s" % H])[0]
+            if not ans.startswith("ok"):
+                raise TieBroken("rows hook failed for %s: %s" % (H, ans[:200]))
+            d = {"ots-get": {}, "ots-from": {}, "lms-get": {}, "lms-from": {}}
+            for tok in ans.split()[1:]:
+                kind, rest = tok.split(":", 1)
+                t, v = rest.split("=")
+                d[kind][int(t)] = tuple(int(x) for x in v.split("/"))
+            fam[H] = d
+        consts = dict(t.split("=", 1) for t in hz.batch(["consts"])[0].split()[1:] if "=" in t)
+    finally:
+        hz.close()
+    byn = {}
+    for H, d in fam.items():
+        n = hbs.HASHES[H]
+        if n in byn and byn[n] != d:
+            raise TieBroken("parameter tables differ between hash families of the same output length %d (the model is keyed by length only)" % n)
+        byn[n] = d
+    lms = byn[32]["lms-get"]
+    for n, d in byn.items():
+        if d["lms-get"] != lms or d["lms-from"] != byn[32]["lms-from"]:
+            raise TieBroken("LMS table depends on the hash")
+    # LM-OTS: (typeId, w, ls) per type code must not depend on n; p(n, w) is the chain-count table
+    variants = {}
+    chains = {}
+    for n, d in byn.items():
+        for t, (tid, w, p, ls) in d["ots-get"].items():
+            name = "LmotsW%d" % w
+            if variants.setdefault(name, (tid, w, ls)) != (tid, w, ls):
+                raise TieBroken("LM-OTS row %s differs between hash lengths (the generated table shape cannot express that)" % name)
+            if chains.setdefault((w, n), p) != p:
+                raise TieBroken("chain count is not a function of (w, n)")
+        for t, (tid, w, p, ls) in d["ots-from"].items():
+            if variants.get("LmotsW%d" % w) != (tid, w, ls) or chains.get((w, n)) != p:
+                raise TieBroken("From<u32> and get_from_type disagree on an LM-OTS row")
+    ws = sorted({w for (w, n) in chains})
+    ns = sorted({n for (w, n) in chains})
+    counts = []
+    for w in ws:
+        for n in ns:
+            if (w, n) not in chains:
+                raise TieBroken("chain count missing for (w=%d, n=%d)" % (w, n))
+            counts.append(chains[(w, n)])
+    ots_names = {t: "LmotsW%d" % row[1] for t, row in byn[32]["ots-get"].items()}
+    ots_from = {t: "LmotsW%d" % row[1] for t, row in byn[32]["ots-from"].items()}
+    lms_names = {t: "LmsH%d" % row[1] for t, row in lms.items()}
+    lms_from = {t: "LmsH%d" % row[1] for t, row in byn[32]["lms-from"].items()}
+    lms_rows = {}
+    for t, (tid, h) in sorted(lms.items()):
+        lms_rows["LmsH%d" % h] = (tid, h)
+    rt = dict(
+        lmots=dict(from_map=sorted(ots_from.items()), from_default="LmotsReserved",
+                   construct=[("LmotsReserved", None)] + [(nm, (variants[nm][0], variants[nm][1], variants[nm][1], variants[nm][2])) for nm in sorted(variants, key=lambda x: variants[x][1])],
+                   get_from_type=sorted(ots_names.items())),
+        lms=dict(from_map=sorted(lms_from.items()), from_default="LmsReserved",
+                 construct=[("LmsReserved", None)] + sorted(lms_rows.items(), key=lambda kv: kv[1][1]),
+                 get_from_type=sorted(lms_names.items())),
+        chain_counts=counts, wi=[(w, i) for i, w in enumerate(ws)], oi=[(n, i) for i, n in enumerate(ns)], stride=len(ns),
+        build=dict(levels=int(consts["MAX_ALLOWED_HSS_LEVELS"]), heights=[int(x) for x in consts["TREE_HEIGHTS"].split(",")],
+                   winternitz=[int(x) for x in consts["WINTERNITZ_PARAMETERS"].split(",")]),
+    )
+    return rt
 
 
 SRC_FILES = None
@@ -507,12 +600,51 @@ def translate_fn(name, params, body, known):
 
 
 def generate():
-    lmots = extract_lmots()
-    lms = extract_lms()
+    rt = runtime_tables()
+    notes = []
+    # source-shape parse of the same tables: optional, cross-checked against the compiled library
+    try:
+        lmots_src = extract_lmots()
+        lms_src = extract_lms()
+    except TieBroken as ex:
+        lmots_src = lms_src = None
+        notes.append("parameter tables no longer have the source shape the extractor knows (%s); taken from the compiled library" % ex)
+    lmots, lms = rt["lmots"], rt["lms"]
+    lms["hook_types"] = (lms_src or {}).get("hook_types", [1] if any(t == 1 for t, _ in lms["get_from_type"]) else [])
+    if lmots_src is not None:
+        for k in ("from_map", "get_from_type", "construct"):
+            if sorted(lmots_src[k], key=str) != sorted(lmots[k], key=str):
+                raise TieBroken("LM-OTS table: source parse and compiled library disagree on %s: %s vs %s" % (k, lmots_src[k], lmots[k]))
+        for k in ("from_map", "get_from_type", "construct"):
+            if sorted(lms_src[k], key=str) != sorted(lms[k], key=str):
+                raise TieBroken("LMS table: source parse and compiled library disagree on %s: %s vs %s" % (k, lms_src[k], lms[k]))
+        lmots["construct"] = lmots_src["construct"]          # keep the source order
+        lms["construct"] = lms_src["construct"]
     cs = extract_constants()
+    if cs["chain_counts"] is not None:
+        src_fn = {}
+        for (w, wi_) in cs["wi"]:
+            for (n, oi_) in cs["oi"]:
+                src_fn[(w, n)] = cs["chain_counts"][wi_ * cs["stride"] + oi_]
+        rt_fn = {}
+        for (w, wi_) in rt["wi"]:
+            for (n, oi_) in rt["oi"]:
+                rt_fn[(w, n)] = rt["chain_counts"][wi_ * rt["stride"] + oi_]
+        if src_fn != rt_fn:
+            raise TieBroken("chain-count table: source parse and compiled library disagree: %s vs %s" % (src_fn, rt_fn))
+    else:
+        notes.append("HASH_CHAIN_COUNTS no longer has the source shape the extractor knows; chain counts taken from the compiled library")
+        cs["chain_counts"], cs["wi"], cs["oi"], cs["stride"] = rt["chain_counts"], rt["wi"], rt["oi"], rt["stride"]
     aux = extract_aux_consts()
+    if not aux.pop("FINALIZE_SHAPE_KNOWN"):
+        notes.append("hss_finalize_aux_data loop reshaped: assumed to cover all levels (checked by the MAC correspondence of C10)")
     pk = extract_privkey_consts()
-    build = extract_build()
+    build_src = extract_build()
+    build = dict(rt["build"], limit=(build_src or {}).get("limit", 8))
+    if build_src is None:
+        notes.append("build.rs reshaped: defaults taken from the constants of the default build")
+    elif (build_src["levels"], build_src["heights"], build_src["winternitz"]) != (build["levels"], build["heights"], build["winternitz"]):
+        raise TieBroken("build.rs defaults: source parse %s and default build %s disagree" % (build_src, rt["build"]))
     decls, diz = extract_structs()
     ambient = extract_ambient()
     digests = fn_digests()
@@ -589,9 +721,6 @@ def generate():
     le = le.replace("MAXLMSPK", "(lms_public_key_length MAX_HASH_SIZE)")
     c.append("def hss_signed_public_key_length %s : Nat := %s" % (" ".join("(%s : Nat)" % p for p in params), le))
     c.append("")
-    c.append("/-- source text of `get_hss_signature_length` (whitespace-normalised); the model's `Config.maxHssSigLen` mirrors it and `Props/C14` pins this text -/")
-    c.append("def hssSigLenSrc : String := " + lean_str(cs["hss_sig_len_src"]))
-    c.append("")
     c.append("/-- build.rs defaults -/")
     c.append("def buildDefaultLevels : Nat := %d" % build["levels"])
     c.append("def buildLevelLimit : Nat := %d" % build["limit"])
@@ -661,7 +790,7 @@ def generate():
     d.append("end Generated")
     files["Decls.lean"] = "\n".join(d) + "\n"
 
-    meta = dict(anchor_digests=digests, ambient=ambient, structs=[x["name"] for x in decls], decls=decls)
+    meta = dict(anchor_digests=digests, ambient=ambient, structs=[x["name"] for x in decls], decls=decls, notes=notes)
     return files, meta
 
 
@@ -693,6 +822,8 @@ def main():
                 open(p, "w").write(text)
     if not check:
         json.dump(meta, open(os.path.join(OUT, "meta.json"), "w"), indent=1, sort_keys=True)
+    for n_ in meta.get("notes", []):
+        print("extract: note: " + n_)
     print("extract: ok; changed: " + (", ".join(changed) if changed else "none"))
     if check and changed:
         sys.exit(3)
